@@ -7,24 +7,13 @@ package service
 
 import (
 	gocontext "context"
-	"strconv"
 
 	"github.com/orda-io/orda/client/pkg/context"
 	"github.com/orda-io/orda/client/pkg/model"
 	"github.com/orda-io/orda/client/pkg/vf"
 	"github.com/orda-io/orda/server/schema"
-	"github.com/orda-io/orda/server/utils"
 )
 
-func (w *vfWorld) pushPullCtx(ctx gocontext.Context, collection, cuid string, ppp *model.PushPullPack) (*model.PushPullPack, error) {
-	msg := &model.PushPullMessage{Header: model.NewMessageHeader(model.RequestType_PUSHPULLS), Collection: collection, Cuid: cuid,
-		PushPullPacks: []*model.PushPullPack{ppp}}
-	res, err := w.svc.ProcessPushPull(ctx, msg)
-	if err != nil || res == nil || len(res.PushPullPacks) == 0 {
-		return nil, err
-	}
-	return res.PushPullPacks[0], nil
-}
 
 // VF_C12_Serialized: an earlier request (whose context the transport cancels
 // when it returns, as gRPC does) and then two simultaneous pushes of two
@@ -130,24 +119,6 @@ func VF_C12_Serialized() {
 	}
 	vf.Quiesce() // the handlers release the lock in a deferred call after replying
 	vf.Assert(w.lockFree(1, vfKey), "C12 the per-key lock is free afterwards")
-}
-
-// VF_C12_LockNames: the three lock-name formats are injective in (collection
-// number, key) and pairwise disjoint.
-func VF_C12_LockNames() {
-	prefixes := []string{"PP", "US", "PD"}
-	p1, p2 := prefixes[vf.Choice("p1", 3)], prefixes[vf.Choice("p2", 3)]
-	d1 := 1 + vf.Choice("digits1", 3)
-	d2 := 1 + vf.Choice("digits2", 3)
-	n1, n2 := vf.NatU32("n1"), vf.NatU32("n2")
-	lo := []uint32{0, 10, 100}
-	hi := []uint32{10, 100, 1000}
-	vf.Assume(vf.All(n1 >= lo[d1-1], n1 < hi[d1-1], n2 >= lo[d2-1], n2 < hi[d2-1]))
-	k1, k2 := vf.Str("k1"), vf.Str("k2")
-	a := utils.GetLockName(p1, int32(n1), k1)
-	b := utils.GetLockName(p2, int32(n2), k2)
-	vf.Reach("named")
-	vf.Assert(vf.Implies(a == b, vf.All(p1 == p2, n1 == n2, k1 == k2)), "C12 lock names are injective in (kind, collection number, key)")
 }
 
 // VF_C13_Race: two clients race SubscribeOrCreate for the same new key (each
@@ -305,47 +276,3 @@ func VF_C12_LockExclusion() {
 	vf.Assert(w.lockFreeName("PP:1:"+vfKey) && w.lockFreeName("PP:1:other"), "C12 the locks are free afterwards")
 }
 
-// VF_C12_LockIndependence (C12 "requests for different datatypes neither block nor
-// affect each other"): the mapping from (purpose, collection, key) to a lock
-// must be one lock per name.  A request holds the lock of its own datatype
-// while N requests for other names of the same shape arrive: every one of them
-// gets its lock at once, while all the others are still held.  N is larger than
-// any fixed-size table of lock objects one would reasonably put behind the
-// names (pigeonhole), and the family contains names that differ in one
-// character, in the collection number only and in the purpose only.
-func VF_C12_LockIndependence() {
-	w := vfNewWorld()
-	n := 700
-	if vf.Tier() == 1 {
-		n = 3000
-	}
-	purposes := []string{"PP", "PD", "US"}
-	var held []interface{ Unlock() bool }
-	refused := 0
-	first := ""
-	for i := 0; i < n && refused == 0; i++ { // (a refused TryLock waits for the lease time: stop at the first one)
-		for _, p := range purposes {
-			for num := int32(1); num <= 2 && refused == 0; num++ {
-				name := utils.GetLockName(p, num, "k"+strconv.Itoa(i))
-				l := w.mgr.GetLock(context0(), name)
-				if l.TryLock() {
-					held = append(held, l)
-				} else {
-					refused++
-					if first == "" {
-						first = name
-					}
-				}
-			}
-		}
-	}
-	vf.Reach("all-asked")
-	if refused > 0 {
-		vf.Tag("first-refused", first)
-	}
-	vf.Assert(refused == 0, "C12 a request for a different datatype is never blocked by the locks other requests hold")
-	for _, l := range held {
-		l.Unlock()
-	}
-	vf.Assert(w.lockFreeName(utils.GetLockName("PP", 1, "k0")), "C12 the locks are free afterwards")
-}
